@@ -125,15 +125,20 @@ namespace Qryn.LogQL
 open Qryn Qryn.Sql
 
 /-! ### `planMetric` as the composition of its phases -/
-/-- the planner state after the steps of the range node (range function, optional comparison) -/
-def rangeState (c : MCtx) (q : MetricQuery) : PState :=
-  (if takesShortcut q then shortcutRange q.rangeAgg else orderRange q.rangeAgg).foldl (applyStep c q)
+/-- `matrixFunctionsLabelsIDX != -1`, with the outcome of `AnalyzeMetrics15sShortcut` as a parameter -/
+def matrixLabelsW (short : Bool) (q : MetricQuery) : Bool :=
+  (q.rangeAgg.isUnwrap && !short) || (match q.agg? with | some a => a.grouped | none => false)
+
+/-- the planner state after the steps of the range node (range function, optional comparison); `short` = the
+    metrics_15s shortcut is planned -/
+def rangeState (short : Bool) (c : MCtx) (q : MetricQuery) : PState :=
+  (if short then shortcutRange q.rangeAgg else orderRange q.rangeAgg).foldl (applyStep c q)
     ⟨splSel c q, (labelConds q.rangeAgg.sel).length⟩
 
-def aggPhase (c : MCtx) (q : MetricQuery) (s : PState) : Sel :=
+def aggPhase (short : Bool) (c : MCtx) (q : MetricQuery) (s : PState) : Sel :=
   match q.agg? with
   | none => s.sel
-  | some a => cmpOpt a.cmp (aggSel a.fn (matrixLabels q)
+  | some a => cmpOpt a.cmp (aggSel a.fn (matrixLabelsW short q)
       (planByWithout c.toCtx (!q.rangeAgg.isUnwrap) (chosenGrouping a.byPrefix a.bySuffix) s).sel)
 
 def topkPhase (q : MetricQuery) (s : Sel) : Sel :=
@@ -141,31 +146,35 @@ def topkPhase (q : MetricQuery) (s : Sel) : Sel :=
   | .topk t => cmpOpt t.cmp (topkSel t.isTop t.k s)
   | _ => s
 
-def joinPhase (c : MCtx) (q : MetricQuery) (s : Sel) : Sel :=
-  if matrixLabels q then s else labelsJoin c.toCtx q.rangeAgg.sel s
+def joinPhase (short : Bool) (c : MCtx) (q : MetricQuery) (s : Sel) : Sel :=
+  if matrixLabelsW short q then s else labelsJoin c.toCtx q.rangeAgg.sel s
 
-theorem planMetric_phases (c : MCtx) (q : MetricQuery) :
-    planMetric c q = finalizeMatrix (joinPhase c q (stepFixSel c q.rangeAgg.durNs
-      (topkPhase q (aggPhase c q (rangeState c q))))) := by
-  unfold planMetric joinPhase rangeState planSteps
+/-- the statement `plan()` builds, as the composition of its phases; `short = false`: the plan of the matrix functions
+    (`getFunctionOrder`), `short = true`: the plan of `planMetrics15Shortcut` -/
+def planPhases (short : Bool) (c : MCtx) (q : MetricQuery) : Sel :=
+  finalizeMatrix (joinPhase short c q (stepFixSel c q.rangeAgg.durNs
+    (topkPhase q (aggPhase short c q (rangeState short c q)))))
+
+theorem planMetric_phases (c : MCtx) (q : MetricQuery) : planMetric c q = planPhases (takesShortcut q) c q := by
+  unfold planMetric planPhases joinPhase rangeState planSteps
   cases q with
   | range r =>
     by_cases hs : takesShortcut (.range r) = true <;>
-      simp [hs, functionOrder, shortcutOrder, topkPhase, aggPhase, MetricQuery.agg?, MetricQuery.rangeAgg]
+      simp [hs, functionOrder, shortcutOrder, topkPhase, aggPhase, MetricQuery.agg?, MetricQuery.rangeAgg, matrixLabels, matrixLabelsW]
   | agg a =>
     by_cases hs : takesShortcut (.agg a) = true <;>
       simp [hs, functionOrder, shortcutOrder, orderAgg, shortcutAgg, topkPhase, aggPhase, MetricQuery.agg?, MetricQuery.rangeAgg,
-        List.foldl_append, applyStep, foldl_cmpStep]
+        List.foldl_append, applyStep, foldl_cmpStep, matrixLabels, matrixLabelsW]
   | topk t =>
     cases hi : t.inner with
     | range r =>
       by_cases hs : takesShortcut (.topk t) = true <;>
         simp [hs, hi, functionOrder, shortcutOrder, topkPhase, aggPhase, MetricQuery.agg?, MetricQuery.rangeAgg, TopInner.rangeAgg,
-          List.foldl_append, applyStep, foldl_cmpStep]
+          List.foldl_append, applyStep, foldl_cmpStep, matrixLabels, matrixLabelsW]
     | agg a =>
       by_cases hs : takesShortcut (.topk t) = true <;>
         simp [hs, hi, functionOrder, shortcutOrder, orderAgg, shortcutAgg, topkPhase, aggPhase, MetricQuery.agg?,
-          MetricQuery.rangeAgg, TopInner.rangeAgg, List.foldl_append, applyStep, foldl_cmpStep]
+          MetricQuery.rangeAgg, TopInner.rangeAgg, List.foldl_append, applyStep, foldl_cmpStep, matrixLabels, matrixLabelsW]
 
 end Qryn.LogQL
 
@@ -219,35 +228,43 @@ def upperPts (o : Oracles) (c : MCtx) (d : LokiDb) (q : MetricQuery) (p0 : List 
   | .topk t => cmpStage t.cmp (topkStage t.isTop t.k p1)
   | _ => p1
 
-theorem evalMetric_eq (o : Oracles) (c : MCtx) (d : LokiDb) (q : MetricQuery) :
-    evalMetric o c d q = sortBy (rowLe matrixKeys)
+/-- the matrix of the direct reading over the entry window `[lo, hi)` -/
+def matrixPts (o : Oracles) (c : MCtx) (d : LokiDb) (q : MetricQuery) (lo hi : Int) : Table :=
+  sortBy (rowLe matrixKeys) ((metricPoints o c d q lo hi).map Pt.row)
+
+theorem evalMetric_matrixPts (o : Oracles) (c : MCtx) (d : LokiDb) (q : MetricQuery) :
+    evalMetric o c d q = matrixPts o c d q (effWindow c q).1 (effWindow c q).2 := rfl
+
+theorem matrixPts_eq (o : Oracles) (c : MCtx) (d : LokiDb) (q : MetricQuery) (lo hi : Int) :
+    matrixPts o c d q lo hi = sortBy (rowLe matrixKeys)
       (((stepStage c.stepNs q.rangeAgg.durNs (upperPts o c d q (cmpStage q.rangeAgg.cmp
-          (rangePoints o c.toCtx d q.rangeAgg (effWindow c q).1 (effWindow c q).2)))).map
+          (rangePoints o c.toCtx d q.rangeAgg lo hi)))).map
         (fun p => { p with labels := ptLabels o c.toCtx d q.rangeAgg.sel p })).map Pt.row) := by
-  unfold evalMetric metricPoints upperPts
+  unfold matrixPts metricPoints upperPts
   cases q <;> rfl
 
 /-- **every query shape over a proved range phase (streams path).** If the statement after the range node's planners
     holds the points of the direct reading's range stage (as stream points, without labels column), then the whole plan
     — optional grouped vector aggregation, optional top/bottom-k, their comparisons, step re-bucketing, labels join
     where no stage attached labels, final select — returns the matrix of the direct reading. -/
-theorem planMetric_of_range (o : Oracles) (c : MCtx) (hn : c.namesOk) (d : LokiDb) (q : MetricQuery)
+theorem planPhases_of_range (short : Bool) (o : Oracles) (c : MCtx) (hn : c.namesOk) (d : LokiDb) (q : MetricQuery)
     (hm : q.rangeAgg.sel.matchers.length ≤ 63) (hun : q.rangeAgg.isUnwrap = false) (hok : aggOk q)
     (p0 : List Pt) (Lr : List Alias) (hLr : ∀ a ∈ Lr, a = .named "agg_a")
-    (hr : PStage o c d q.rangeAgg.sel (rangeState c q).sel p0 Lr)
-    (hid : (rangeState c q).id = (labelConds q.rangeAgg.sel).length)
-    (hstream : ∀ p ∈ p0, StreamPt p) (hcol : hasColumn (rangeState c q).sel.cols "labels" = false)
-    (hp0 : p0 = cmpStage q.rangeAgg.cmp (rangePoints o c.toCtx d q.rangeAgg (effWindow c q).1 (effWindow c q).2)) :
-    (evalSelA o (d.toDbM c) (planMetric c q)).map normRow = evalMetric o c d q := by
-  rw [planMetric_phases, evalMetric_eq, ← hp0]
+    (hr : PStage o c d q.rangeAgg.sel (rangeState short c q).sel p0 Lr)
+    (hid : (rangeState short c q).id = (labelConds q.rangeAgg.sel).length)
+    (hstream : ∀ p ∈ p0, StreamPt p) (hcol : hasColumn (rangeState short c q).sel.cols "labels" = false)
+    (lo hi : Int) (hp0 : p0 = cmpStage q.rangeAgg.cmp (rangePoints o c.toCtx d q.rangeAgg lo hi)) :
+    (evalSelA o (d.toDbM c) (planPhases short c q)).map normRow = matrixPts o c d q lo hi := by
+  unfold planPhases
+  rw [matrixPts_eq, ← hp0]
   have hfreshLr : ∀ n : String, n ≠ "agg_a" → Alias.named n ∉ Lr := by
     intro n hne hmem
     exact hne (Alias.named.inj (hLr _ hmem))
   -- the aggregation phase
   cases hagg : q.agg? with
   | none =>
-    have hml : matrixLabels q = false := by unfold matrixLabels; simp [hun, hagg]
-    have hA : aggPhase c q (rangeState c q) = (rangeState c q).sel := by unfold aggPhase; rw [hagg]
+    have hml : matrixLabelsW short q = false := by unfold matrixLabelsW; simp [hun, hagg]
+    have hA : aggPhase short c q (rangeState short c q) = (rangeState short c q).sel := by unfold aggPhase; rw [hagg]
     have hU1 : (match q.agg? with
         | some a => cmpStage a.cmp (aggStage o c.toCtx d q.rangeAgg.sel a p0)
         | none => p0) = p0 := by rw [hagg]
@@ -299,9 +316,9 @@ theorem planMetric_of_range (o : Oracles) (c : MCtx) (hn : c.namesOk) (d : LokiD
       unfold aggOk at hok; rw [hagg] at hok; exact hok
     obtain ⟨g, hg⟩ := Option.isSome_iff_exists.mp hok'.1
     have hgr : a.grouped = true := grouped_of_chosen a g hg
-    have hml : matrixLabels q = true := by unfold matrixLabels; simp [hagg, hgr]
-    have hA : aggPhase c q (rangeState c q) =
-        cmpOpt a.cmp (aggSel a.fn true (byWithoutTS c.toCtx (labelConds q.rangeAgg.sel).length g (rangeState c q).sel)) := by
+    have hml : matrixLabelsW short q = true := by unfold matrixLabelsW; simp [hagg, hgr]
+    have hA : aggPhase short c q (rangeState short c q) =
+        cmpOpt a.cmp (aggSel a.fn true (byWithoutTS c.toCtx (labelConds q.rangeAgg.sel).length g (rangeState short c q).sel)) := by
       unfold aggPhase
       rw [hagg]
       simp only [hml, hun, Bool.not_false, hg, planByWithout, if_true, hid]
@@ -367,13 +384,28 @@ open Qryn Qryn.Sql
 theorem isUnwrap_lra (r : RangeAgg) (fn : RangeFn) (hk : r.kind = .lra fn) : r.isUnwrap = false := by
   unfold RangeAgg.isUnwrap; rw [hk]
 
-theorem rangeState_lra (c : MCtx) (q : MetricQuery) (fn : RangeFn) (hk : q.rangeAgg.kind = .lra fn)
-    (hs : takesShortcut q = false) :
-    rangeState c q = ⟨cmpOpt q.rangeAgg.cmp (lraSel fn q.rangeAgg.durNs false (samplesMain c.toCtx q.rangeAgg.sel)),
+theorem rangeState_lra (c : MCtx) (q : MetricQuery) (fn : RangeFn) (hk : q.rangeAgg.kind = .lra fn) :
+    rangeState false c q = ⟨cmpOpt q.rangeAgg.cmp (lraSel fn q.rangeAgg.durNs false (samplesMain c.toCtx q.rangeAgg.sel)),
       (labelConds q.rangeAgg.sel).length⟩ := by
   unfold rangeState
-  simp only [hs, Bool.false_eq_true, if_false, orderRange, hk, List.foldl_append, List.foldl_cons, List.foldl_nil, applyStep,
+  simp only [Bool.false_eq_true, if_false, orderRange, hk, List.foldl_append, List.foldl_cons, List.foldl_nil, applyStep,
     foldl_cmpStep, splSel, isUnwrap_lra _ fn hk]
+
+/-- the plan of the matrix functions (no shortcut) over rate / count_over_time / bytes_rate / bytes_over_time, every
+    query shape: the matrix of the direct reading over the entries of `[from, to)` -/
+theorem planPhases_lra (o : Oracles) (c : MCtx) (hn : c.namesOk) (d : LokiDb) (q : MetricQuery) (fn : RangeFn)
+    (hk : q.rangeAgg.kind = .lra fn) (hok : aggOk q)
+    (hm : q.rangeAgg.sel.matchers.length ≤ 63) (hms : 1000000 ∣ q.rangeAgg.durNs) (hd : 0 < q.rangeAgg.durNs) :
+    (evalSelA o (d.toDbM c) (planPhases false c q)).map normRow = matrixPts o c d q c.fromNs c.toNs := by
+  have hrs := rangeState_lra c q fn hk
+  apply planPhases_of_range false o c hn d q hm (isUnwrap_lra _ fn hk) hok
+    (cmpStage q.rangeAgg.cmp (lraPts fn q.rangeAgg.durNs (d.samples.filter (entryMatches o c.toCtx d q.rangeAgg.sel))))
+    [.named "agg_a"] (by simp)
+  · rw [hrs]; exact lraPhase_ok o c hn d q.rangeAgg.sel hm fn q.rangeAgg.durNs hms hd q.rangeAgg.cmp
+  · rw [hrs]
+  · exact cmpStage_labels _ _ _ (lraPts_stream fn _ _)
+  · rw [hrs]; exact hasLabels_lra _ _ _ _
+  · rw [rangePoints_lra o c.toCtx d q.rangeAgg fn _ _ hk, entryMatchesW_window]
 
 /-- **plan_metric_correct on the samples path**: every query whose range aggregation is rate / count_over_time /
     bytes_rate / bytes_over_time without the metrics_15s shortcut — alone, under a grouped vector aggregation, under
@@ -382,16 +414,8 @@ theorem planMetric_lra (o : Oracles) (c : MCtx) (hn : c.namesOk) (d : LokiDb) (q
     (hk : q.rangeAgg.kind = .lra fn) (hs : takesShortcut q = false) (hok : aggOk q)
     (hm : q.rangeAgg.sel.matchers.length ≤ 63) (hms : 1000000 ∣ q.rangeAgg.durNs) (hd : 0 < q.rangeAgg.durNs) :
     (evalSelA o (d.toDbM c) (planMetric c q)).map normRow = evalMetric o c d q := by
-  have hrs := rangeState_lra c q fn hk hs
-  apply planMetric_of_range o c hn d q hm (isUnwrap_lra _ fn hk) hok
-    (cmpStage q.rangeAgg.cmp (lraPts fn q.rangeAgg.durNs (d.samples.filter (entryMatches o c.toCtx d q.rangeAgg.sel))))
-    [.named "agg_a"] (by simp)
-  · rw [hrs]; exact lraPhase_ok o c hn d q.rangeAgg.sel hm fn q.rangeAgg.durNs hms hd q.rangeAgg.cmp
-  · rw [hrs]
-  · exact cmpStage_labels _ _ _ (lraPts_stream fn _ _)
-  · rw [hrs]; exact hasLabels_lra _ _ _ _
-  · unfold effWindow
-    simp only [hs, Bool.false_eq_true, if_false]
-    rw [rangePoints_lra o c.toCtx d q.rangeAgg fn _ _ hk, entryMatchesW_window]
+  rw [planMetric_phases, hs, planPhases_lra o c hn d q fn hk hok hm hms hd, evalMetric_matrixPts]
+  unfold effWindow
+  simp [hs]
 
 end Qryn.LogQL
